@@ -29,7 +29,8 @@ from pyvc import props as P         # noqa: E402
 
 VENV_PY = '/venv/bin/python'
 SPEC_MODULES = ['specs.c_topology', 'specs.c_registry', 'specs.c_runfor', 'specs.c_dicts', 'specs.c_timeline', 'specs.c_emitter',
-                'specs.c_engine', 'specs.c_store', 'specs.c_process', 'specs.c_composer']
+                'specs.c_engine', 'specs.c_store', 'specs.c_process', 'specs.c_apply'] + \
+    [m for m in os.environ.get('PYVC_EXTRA_SPECS', '').split(',') if m]
 
 
 def load_specs():
@@ -390,8 +391,11 @@ def run_check(prop, tier, seed, a, t0):
     ev = {'property_id': prop, 'tier': tier, 'seed': seed, 'level': level, 'coverage': cov,
           'assumptions': sorted(assumptions) + list(info.get('assumptions', [])),
           'wall_s': round(wall, 2), 'violations': len(reported)}
-    os.makedirs(os.path.join(HERE, 'evidence'), exist_ok=True)
-    json.dump(ev, open(os.path.join(HERE, 'evidence', prop + '.json'), 'w'), indent=1, default=repr)
+    # seeded-change experiments (tools/try_seed.sh) write their evidence elsewhere, so that the committed evidence
+    # always describes /repo itself
+    evdir = os.path.join(HERE, os.environ.get('VERIF_EVIDENCE_DIR', 'evidence'))
+    os.makedirs(evdir, exist_ok=True)
+    json.dump(ev, open(os.path.join(evdir, prop + '.json'), 'w'), indent=1, default=repr)
     if a.rebaseline:
         base = load_baseline()
         for r in results:
